@@ -1,10 +1,38 @@
 // Correspondence harness for nitro::lang::{split,join,replace_all,starts_with} (C17).
 #include "common.hpp"
 
+#include <iomanip>
 #include <iterator>
 #include <sstream>
 
 #include <nitro/lang/string.hpp>
+
+// Elements of a user-defined type.  What such an element contributes is its own stream representation - whatever
+// its inserter does to the stream it is given (formatting flags, a pending width, the failed state) is its own affair
+// and can not show in the elements that follow.
+struct Word
+{
+    std::string text;
+    int kind;
+};
+static std::ostream& operator<<(std::ostream& os, const Word& w)
+{
+    switch (w.kind)
+    {
+    case 1:
+        os << w.text << std::hex << std::showbase << std::uppercase << std::setfill('*');
+        os.width(9);
+        return os;
+    case 2:
+        os << w.text;
+        os.setstate(std::ios_base::failbit);
+        return os;
+    case 3:
+        return os << static_cast<long>(w.text.size() + 10) << w.text;
+    default:
+        return os << w.text;
+    }
+}
 
 static std::string handle(const std::vector<std::string>& f)
 {
@@ -55,6 +83,21 @@ static std::string handle(const std::vector<std::string>& f)
                                        nv::unhex(f.at(2)));
             if (c != a)
                 return "single-pass-range-differs " + nv::hex(c);
+        }
+        {
+            std::vector<Word> ws;
+            std::vector<std::string> alone;
+            for (std::size_t i = 0; i < xs.size(); i++)
+            {
+                ws.push_back(Word{ xs[i], static_cast<int>((i + xs[i].size() + xs.size()) % 4) });
+                std::ostringstream o;
+                o << ws.back();
+                alone.push_back(o.str());
+            }
+            auto expect = nitro::lang::join(alone, nv::unhex(f.at(2)));
+            auto u = nitro::lang::join(ws.begin(), ws.end(), nv::unhex(f.at(2)));
+            if (u != expect)
+                return "user-type-elements-differ " + nv::hex(u);
         }
         return "ok " + nv::hex(a);
     }
